@@ -151,9 +151,6 @@ theorem fitsAll_length : ∀ {as bs : List T}, fitsAll as bs = true → as.lengt
     simp only [fitsAll, Bool.and_eq_true] at h
     simp [fitsAll_length h.2]
 
-mutual
-theorem ofTy_total_dummy : ∀ (_ : Ty), True
-  | _ => trivial
 theorem ofTys_length : ∀ (l : List Ty) (ts : List T), ofTys l = some ts → ts.length = l.length
   | [], ts, h => by simp [ofTys] at h; subst h; rfl
   | t :: l, ts, h => by
@@ -163,7 +160,6 @@ theorem ofTys_length : ∀ (l : List Ty) (ts : List T), ofTys l = some ts → ts
       simp at h; subst h
       simp [ofTys_length l ts' h2]
     · simp at h
-end
 
 -- ---------------------------------------------------------------- store invariant
 
